@@ -22,7 +22,7 @@
 //!   R16 `for x in SET` (named local HashSet of Copy elements, listed per function) -> `for r in SET.iter() { let x = *r; .. }`
 //!   R17 a `for` over a range / `&V` / `V.iter()` whose body uses `continue` -> counted `while` (Verus: no continue in for-loops)
 //!   R18 arm abstraction (per function, listed arms kept): other arms of the same `match` -> arbitrary result + arbitrary change of listed places
-//!   R19 `opt.or_else(|| B)` / `unwrap_or_else(|| B)` / `ok_or_else(|| E)` -> `match`
+//!   R19 `opt.or_else(|| B)` / `unwrap_or_else(|| B)` / `ok_or_else(|| E)` / `map_or(LIT, |p| B)` / `map_or_else(|| D, |p| B)` -> `match`
 //!   R20 `M.entry(K).or_default().push(V)` (push_back / insert; or_insert_with(Vec::new) ..) -> `vx_entry_or_default_push(&mut M, K, V)` (prelude/entry.vrs)
 //!   R3  `opt.is_some_and(|x| B)` -> `match`      R21 `a |= b` / `a &= b` on bools -> `{ let t = b; a = a || t; }`
 //!   R23 calls to private helpers of the same impl/file that the unit does not put under contract (no generics, no return/?) are inlined
@@ -1078,6 +1078,39 @@ impl<'a> VisitMut for Rw<'a> {
                                 let recv = &mc.receiver;
                                 let b = &c.body;
                                 repl = Some(parse_quote!(match #recv { Some(#p) => #b, None => None }));
+                            }
+                        }
+                    }
+                }
+            }
+            if repl.is_none() {
+                // `X.map_or(D, |p| B)` with a literal / path default D (no effects, so evaluating it only in the None arm is the same),
+                // `X.map_or_else(|| D, |p| B)`  ->  `match X { Some(p) => B, None => D }`
+                if let Expr::MethodCall(mc) = e {
+                    let name = mc.method.to_string();
+                    if mc.args.len() == 2 && matches!(name.as_str(), "map_or" | "map_or_else") {
+                        let d: Option<Expr> = if name == "map_or" {
+                            match &mc.args[0] {
+                                Expr::Lit(_) | Expr::Path(_) => Some(mc.args[0].clone()),
+                                _ => None,
+                            }
+                        } else {
+                            match closure_of(&mc.args[0]) {
+                                Some(c0) if c0.inputs.is_empty() => Some((*c0.body).clone()),
+                                _ => match &mc.args[0] {
+                                    // a function path as the default: `map_or_else(Vec::new, ..)`
+                                    Expr::Path(fp) => Some(parse_quote!(#fp())),
+                                    _ => None,
+                                },
+                            }
+                        };
+                        if let (Some(d), Some(c)) = (d, closure_of(&mc.args[1])) {
+                            if let Some(p) = closure_single_pat(&c) {
+                                if !matches!(p, Pat::Reference(_) | Pat::Wild(_)) {
+                                    let recv = &mc.receiver;
+                                    let b = &c.body;
+                                    repl = Some(parse_quote!(match #recv { Some(#p) => #b, None => #d }));
+                                }
                             }
                         }
                     }
